@@ -19,6 +19,7 @@ import (
 	"github.com/pierrec/lz4"
 	"github.com/vicanso/pike/compress"
 	"github.com/vicanso/pike/config"
+	"github.com/vicanso/pike/location"
 	"github.com/vicanso/pike/server"
 
 	"pikeverif/world"
@@ -36,6 +37,7 @@ type respCase struct {
 	Status    int    `json:"status"`
 	Members   int    `json:"members"`
 	Storm     bool   `json:"storm"`
+	Cut       bool   `json:"cut"`
 	Requests  int    `json:"requests"`
 
 	body    []byte
@@ -149,6 +151,35 @@ func refDecode(enc string, b []byte) ([]byte, error) {
 		return ioutil.ReadAll(brotli.NewReader(bytes.NewReader(b)))
 	}
 	return nil, fmt.Errorf("client cannot decode %s", enc)
+}
+
+// respCut the origin breaks the connection in the middle of a cacheable body (location with a proxy timeout)
+func respCut(w *world.World, raw json.RawMessage) map[string]interface{} {
+	location.Reset([]config.LocationConfig{{Name: "loc", Upstream: "up"}, {Name: "loct", Upstream: "up", Prefixes: []string{"/cut"}, ProxyTimeout: "30s"}})
+	defer location.Reset([]config.LocationConfig{{Name: "loc", Upstream: "up"}})
+	w.AddHandler("ptimeout", server.ServerOption{Cache: "resp", Locations: []string{"loct"}})
+	old := w.Policy
+	defer func() { w.Policy = old }()
+	body := bytes.Repeat([]byte("a body that is cut short. "), 400)
+	cuts := 0
+	w.Policy = func(ri *world.ReqInfo, req *http.Request) world.Outcome {
+		h := http.Header{}
+		h.Set("Content-Type", "text/plain")
+		h.Set("Cache-Control", "max-age=60")
+		if cuts == 0 {
+			cuts++
+			return world.Outcome{Kind: "cut", Header: h, Body: body}
+		}
+		return world.Outcome{Kind: "raw", Header: h, Status: 200, Body: body, Lifetime: 60}
+	}
+	r1 := w.DoCase("", "ptimeout", "GET", "h", "/cut/1", http.Header{"Accept-Encoding": []string{"gzip"}}, nil)
+	d1, _ := refDecode(r1.Header.Get("Content-Encoding"), r1.Body)
+	r2 := w.DoCase("", "ptimeout", "GET", "h", "/cut/1", nil, nil)
+	d2, _ := refDecode(r2.Header.Get("Content-Encoding"), r2.Body)
+	w.TakeTrace()
+	return map[string]interface{}{"case": raw,
+		"firstComplete": r1.Panic == nil && r1.Status == 200, "firstFull": bytes.Equal(d1, body),
+		"secondLabel": r2.Label, "secondFull": bytes.Equal(d2, body), "secondStatus": r2.Status}
 }
 
 // respStorm a server reconfigured back and forth while it answers
@@ -274,6 +305,7 @@ func Response(w *world.World, raws []json.RawMessage) ([]interface{}, error) {
 		i        int
 		uri      string
 		storeOps []compOp
+		obs      map[string]interface{}
 	}
 	observe := func(p *pending, r *world.Result, storeOps, serveOps []compOp) {
 		c := p.c
@@ -336,6 +368,8 @@ func Response(w *world.World, raws []json.RawMessage) ([]interface{}, error) {
 		if !headersOk {
 			o["headers"] = fmt.Sprintf("%q", hv)
 		}
+		o["concOk"] = true
+		p.obs = o
 		out = append(out, o)
 		w.TakeTrace()
 	}
@@ -343,7 +377,7 @@ func Response(w *world.World, raws []json.RawMessage) ([]interface{}, error) {
 	// observed requests afterwards, so that other responses pass through pike between storing and serving
 	const batch = 64
 	for b0 := 0; b0 < len(raws); b0 += batch {
-		var hits, restores []*pending
+		var hits, restores, fresh []*pending
 		for i := b0; i < b0+batch && i < len(raws); i++ {
 			c := &respCase{}
 			if err := json.Unmarshal(raws[i], c); err != nil {
@@ -351,6 +385,10 @@ func Response(w *world.World, raws []json.RawMessage) ([]interface{}, error) {
 			}
 			if c.Storm {
 				out = append(out, respStorm(w, raws[i], c.Requests))
+				continue
+			}
+			if c.Cut {
+				out = append(out, respCut(w, raws[i]))
 				continue
 			}
 			c.body = makeBody(c, i)
@@ -375,6 +413,7 @@ func Response(w *world.World, raws []json.RawMessage) ([]interface{}, error) {
 			case "first":
 				r := w.DoCase("", c.Setting, "GET", "h", p.uri, hdr(c.Accept), c)
 				observe(p, r, take(), []compOp{})
+				fresh = append(fresh, p)
 			case "pass":
 				w.DoCase("", c.Setting, "GET", "h", p.uri, hdr("gzip"), c)
 				so := take()
@@ -383,6 +422,7 @@ func Response(w *world.World, raws []json.RawMessage) ([]interface{}, error) {
 			case "post":
 				r := w.DoCase("", c.Setting, "POST", "h", p.uri, hdr(c.Accept), c)
 				observe(p, r, []compOp{}, take())
+				fresh = append(fresh, p)
 			case "hit", "restore":
 				w.DoCase("", c.Setting, "GET", "h", p.uri, hdr("gzip"), c)
 				p.storeOps = take()
@@ -397,6 +437,32 @@ func Response(w *world.World, raws []json.RawMessage) ([]interface{}, error) {
 			take()
 			r := w.DoCase("", p.c.Setting, "GET", "h", p.uri, hdr(p.c.Accept), p.c)
 			observe(p, r, p.storeOps, take())
+		}
+		// the fetching / passed cases of the batch once more, all at the same time (new keys): the same answers
+		if len(fresh) > 1 {
+			var wg sync.WaitGroup
+			sem := make(chan struct{}, 8)
+			for _, p := range fresh {
+				wg.Add(1)
+				go func(p *pending) {
+					defer wg.Done()
+					sem <- struct{}{}
+					defer func() { <-sem }()
+					m := "GET"
+					if p.c.Path == "post" {
+						m = "POST"
+					}
+					r := w.DoCase("", p.c.Setting, m, "h", p.uri+"?again=1", hdr(p.c.Accept), p.c)
+					e := r.Header.Get("Content-Encoding")
+					d, err := refDecode(e, r.Body)
+					if p.obs != nil && (err != nil || !bytes.Equal(d, p.c.body) || r.Status != p.c.Status || e != p.obs["ce"]) {
+						p.obs["concOk"] = false
+					}
+				}(p)
+			}
+			wg.Wait()
+			take()
+			w.TakeTrace()
 		}
 		if len(restores) > 0 {
 			w.DropMemory()
